@@ -433,6 +433,12 @@ func runC20(c c20Case, rec *ev.Recorder) *Failure {
 			if vb, ok := m.(sdk.HasValidateBasic); ok {
 				var verr error
 				if fl := catchPanic("ValidateBasic/"+sdk.MsgTypeURL(m), func() { verr = vb.ValidateBasic() }); fl != nil {
+					if c20ThirdParty(m, fl) {
+						// a dependency's message type panicking in its own code is outside "any fxcore message"
+						// (it cannot be repaired in this repository either); counted, and baseapp recovers it
+						rec.Case("", false, "kind:"+c.Kind, "third-party-validatebasic-panic:"+sdk.MsgTypeURL(m))
+						return nil
+					}
 					return fl
 				}
 				if verr != nil {
@@ -440,6 +446,10 @@ func runC20(c c20Case, rec *ev.Recorder) *Failure {
 				}
 			}
 			if fl := catchPanic("GetSigners/"+sdk.MsgTypeURL(m), func() { _, _, _ = f.App.AppCodec().GetMsgV1Signers(m) }); fl != nil {
+				if c20ThirdParty(m, fl) {
+					rec.Case("", false, "kind:"+c.Kind, "third-party-getsigners-panic:"+sdk.MsgTypeURL(m))
+					return nil
+				}
 				return fl
 			}
 		}
@@ -545,4 +555,9 @@ func init() { registerReplay("C20", runC20) }
 
 func TestC20A(t *testing.T) {
 	drive(t, "C20", genC20, runC20)
+}
+
+// c20ThirdParty: the message type is not defined by fx-core and the panic has no frame in /repo.
+func c20ThirdParty(m sdk.Msg, fl *Failure) bool {
+	return !strings.HasPrefix(sdk.MsgTypeURL(m), "/fx.") && strings.HasSuffix(fl.Sig, "/unknown")
 }
